@@ -5,6 +5,7 @@ import (
 	"go/constant"
 	"go/token"
 	"go/types"
+	"regexp"
 	"sort"
 	"strings"
 
@@ -235,6 +236,12 @@ func panicReachability(e *Env, scope map[*ssa.Function]bool) {
 				e.R.OK("PANIC", key, pos, "exemption: "+why)
 				continue
 			}
+			// the same justification wherever the code lives: panic on the error
+			// of Atoi(s) behind a match of s against an all-digits pattern
+			if atoiAfterDigitsMatch(e, b) {
+				e.R.OK("PANIC", key, pos, "exemption: "+panicExemptions["bundle.loadResponse"])
+				continue
+			}
 			e.R.Fail("PANIC", key, pos, "explicit panic reachable from a parser entry point and not discharged (not an exhaustive-switch default, not caller-guarded, not a documented cannot-happen site)",
 				"in "+name, "panic value: "+short(prov.Of(pn.X)))
 		}
@@ -302,29 +309,61 @@ func callersReachableUnder(e *Env, fn *ssa.Function, v string, scope map[*ssa.Fu
 	return ""
 }
 
+// atoiAfterDigitsMatch: the panic block is dominated by the failing edge of
+// strconv.Atoi(s) and by a successful MatchString(s) of a package-level
+// regular expression compiled (in the package initialiser) from a pattern
+// that admits only one to nine ASCII digits: such a string always parses, so
+// the block is unreachable.
+func atoiAfterDigitsMatch(e *Env, pb *ssa.BasicBlock) bool {
+	var atoiArg string
+	a := dominatedBy(pb, func(f gate.Fact) bool {
+		if f.Kind == gate.FErrSet && prov.CalleeName(&f.Call.Call) == "strconv.Atoi" {
+			atoiArg = prov.Of(f.Call.Call.Args[0])
+			return true
+		}
+		return false
+	})
+	if !a {
+		return false
+	}
+	var reGlobal string
+	m := dominatedBy(pb, func(f gate.Fact) bool {
+		if f.Kind == gate.FBool && f.Val && f.Call != nil && prov.CalleeName(&f.Call.Call) == "(*regexp.Regexp).MatchString" &&
+			len(f.Call.Call.Args) == 2 && prov.Of(f.Call.Call.Args[1]) == atoiArg && strings.HasPrefix(prov.Of(f.Call.Call.Args[0]), "global:") {
+			reGlobal = prov.Of(f.Call.Call.Args[0])
+			return true
+		}
+		return false
+	})
+	if !m {
+		return false
+	}
+	digits := regexp.MustCompile(`^const:"\^(\\\\d){1,9}\$"$`)
+	for _, in := range e.P.Funcs {
+		if in.Name() != "init" || in.Parent() != nil {
+			continue
+		}
+		for _, b := range in.Blocks {
+			for _, i2 := range b.Instrs {
+				st, ok := i2.(*ssa.Store)
+				if !ok || prov.Of(st.Addr) != reGlobal {
+					continue
+				}
+				c, ok := st.Val.(*ssa.Call)
+				if ok && prov.CalleeName(&c.Call) == "regexp.MustCompile" && digits.MatchString(prov.Of(c.Call.Args[0])) {
+					return true
+				}
+			}
+		}
+	}
+	return false
+}
+
 // exemptionHolds re-checks the justification of the two documented sites.
 func exemptionHolds(e *Env, fn *ssa.Function, pb *ssa.BasicBlock) bool {
 	switch load.FuncName(fn) {
 	case "bundle.loadResponse":
-		// the panic is dominated by reStatus.MatchString(status) == true and by Atoi's error on that same string
-		m := dominatedBy(pb, func(f gate.Fact) bool {
-			return f.Kind == gate.FBool && f.Val && f.Call != nil && prov.CalleeName(&f.Call.Call) == "(*regexp.Regexp).MatchString" &&
-				strings.Contains(prov.Of(f.Call.Call.Args[0]), "global:bundle.reStatus")
-		})
-		a := dominatedBy(pb, func(f gate.Fact) bool {
-			return f.Kind == gate.FErrSet && prov.CalleeName(&f.Call.Call) == "strconv.Atoi"
-		})
-		re := false
-		if in, ok := e.P.FuncOK("bundle.init"); ok {
-			for _, b := range in.Blocks {
-				for _, i2 := range b.Instrs {
-					if c, ok := i2.(*ssa.Call); ok && prov.CalleeName(&c.Call) == "regexp.MustCompile" && prov.Of(c.Call.Args[0]) == `const:"^\\d\\d\\d$"` {
-						re = true
-					}
-				}
-			}
-		}
-		return m && a && re
+		return atoiAfterDigitsMatch(e, pb)
 	case "signedexchange/structuredheader.(*parser).parseByteSequence":
 		// dominated by IndexByte(input,'*') >= 0 and by consumeChar('*') == false
 		idx := dominatedBy(pb, func(f gate.Fact) bool {
